@@ -26,6 +26,8 @@ const (
 
 var ErrNonUnique = errors.New("non-unique record name")
 
+var errInvalidRecord = errors.New("invalid record geometry")
+
 // Index is an FAI index.
 type Index map[string]Record
 
@@ -136,12 +138,19 @@ func (r Record) Position(p int) int64 {
 }
 
 func (r Record) position(p int) int64 {
+	if r.BasesPerLine <= 0 {
+		// A record without sequence lines has no positions beyond its start.
+		return r.Start
+	}
 	return r.Start + int64(p/r.BasesPerLine*r.BytesPerLine+p%r.BasesPerLine)
 }
 
 // endOfLineOffset returns the number of bytes until the end of the line
 // holding position p.
 func (r Record) endOfLineOffset(p int) int {
+	if r.BasesPerLine <= 0 {
+		return 0
+	}
 	if p/r.BasesPerLine == r.Length/r.BasesPerLine {
 		return r.Length - p
 	}
@@ -198,13 +207,17 @@ func ReadFrom(r io.Reader) (idx Index, err error) {
 		} else if _, exists := idx[rec[nameField]]; exists {
 			return nil, parseError(line, 0, ErrNonUnique)
 		}
-		idx[rec[nameField]] = Record{
+		r := Record{
 			Name:         rec[nameField],
 			Length:       mustAtoi(rec, lengthField, line),
 			Start:        mustAtoi64(rec, startField, line),
 			BasesPerLine: mustAtoi(rec, basesField, line),
 			BytesPerLine: mustAtoi(rec, bytesField, line),
 		}
+		if r.Length < 0 || r.Start < 0 || r.BasesPerLine < 0 || r.BytesPerLine < r.BasesPerLine || (r.Length > 0 && r.BasesPerLine == 0) {
+			return nil, parseError(line, 0, errInvalidRecord)
+		}
+		idx[r.Name] = r
 	}
 }
 
